@@ -68,7 +68,7 @@ DESC_MODES = ['elements', 'groups']
 DEFAULT = dict(exp='table', tref='equal', desc='elements')
 
 QUICK_SUB = [0, 1, 2, 3, 4, 5, 9, 10, 13]      # 9-species sub-menu used for 5-8 references in the quick tier
-HIST_POOL = {'quick': [0, 2, 1, 4, 5], 'thorough': [0, 2, 1, 4, 5, 9, 3]}
+HIST_POOL = {'quick': [0, 2, 1, 4, 5], 'thorough': [0, 2, 1, 4, 5, 9]}
 HIST_DEPTH = {'quick': 4, 'thorough': 5}
 N_FIT_SHARDS = 24
 
@@ -86,7 +86,7 @@ def bounds(tier):
                          if tier == 'quick' else 'all of size 1-8 of the 14-menu (12910)'),
                 deviation=('full product exp x T_ref x descriptor for <= 2 references, one deviation for 3-4, '
                            'default + consistent for 5-8' if tier == 'quick' else
-                           'full product for <= 4 references, one deviation for 5-8'),
+                           'full product for <= 3 references, one deviation for 4, default + consistent for 5-8'),
                 exp_modes=EXP_MODES, tref_modes=TREF_MODES, descriptor_modes=DESC_MODES,
                 temperatures=TEMPS, history_pool=[NAMES[i] for i in HIST_POOL[tier]],
                 history_depth=HIST_DEPTH[tier])
@@ -115,7 +115,7 @@ def _fit_cases(tier):
             level = 'full' if k <= 2 else ('one' if k <= 4 else 'two')
         else:
             pool = range(n)
-            level = 'full' if k <= 4 else 'one'
+            level = 'full' if k <= 3 else ('one' if k == 4 else 'two')
         for sub in itertools.combinations(pool, k):
             for cfg in _configs(level):
                 yield dict(kind='fit', refs=list(sub), **cfg)
@@ -127,7 +127,7 @@ def shards(tier):
     pool = HIST_POOL[tier]
     for plen in (1, 2, 3):
         for given in (False, True):
-            for rot in range(len(pool) if tier == 'thorough' else 3):
+            for rot in range(3):
                 order = pool[rot:] + pool[:rot]
                 out.append(dict(kind='hist', init=order[:plen], pool=pool, given=given,
                                 tref='equal' if (rot + plen) % 2 == 0 else 'byid', depth=HIST_DEPTH[tier]))
